@@ -476,7 +476,7 @@ PROPS = {
     },
     "C03": {
         "lean_modules": ["TemporalModel.Props.C03"],
-        "suites": ["c03", "c04", "c05", "c06", "c08", "c09", "c10", "c17", "c18"],
+        "suites": ["c03", "c04", "c05", "c06", "c08", "c09", "c10", "c17", "c18", "c13", "c14"],
         "extra_profiles": ["release"],
         "level_text": "Proof: every panic site of the modelled code (unreachable!/assert!/temporal_assert!/unchecked index or unwrap/"
                       "unbounded loop) is an explicit `.panic` or `.err .assert` outcome of the model, and C03_constructors, "
